@@ -404,3 +404,340 @@ func VerifC06() {
 		nd.Assert(g != h, "C06: the holder itself is never an element of its own slice")
 	}
 }
+
+// ---------------------------------------------------------------------------
+// C07: injection by name
+// ---------------------------------------------------------------------------
+
+// registration: two distinct components can never be registered under one name
+func VerifC07Register() {
+	k := nd.Param("K", 3)
+	reg := support.NewRegistry()
+	var ps []any
+	var names []string
+	var accepted []bool
+	for i := 0; i < k; i++ {
+		t := nd.Choose(2) // *vPA or *vPB
+		a := vAttr{id: i, nm: nd.StringUpTo(nd.Param("L", 1))}
+		p := vMake(t, a)
+		ps = append(ps, p)
+		names = append(names, vProviderName(p))
+		rejected := nd.Catch(func() { reg.RegisterSingleton(p) })
+		accepted = append(accepted, !rejected)
+		dup := false
+		for j := 0; j < i; j++ {
+			if accepted[j] && names[j] == names[i] {
+				dup = true
+			}
+		}
+		nd.Assert(rejected == dup, "C07: a component is rejected exactly when another component already holds its name")
+		if rejected {
+			nd.Cover("duplicate rejected")
+		}
+	}
+	for i := 0; i < k; i++ {
+		got, err := reg.GetSingleton(names[i])
+		nd.Assert(err == nil, "C07: a registered name is retrievable")
+		first := -1
+		for j := 0; j < k; j++ {
+			if accepted[j] && names[j] == names[i] {
+				first = j
+				break
+			}
+		}
+		nd.Assert(first >= 0 && got == ps[first], "C07: a name refers to exactly the component registered under it")
+	}
+}
+
+func VerifC07() {
+	k := nd.Param("K", 2)
+	kind := []int{kPtr, kIface, kAny}[nd.Choose(3)]
+	optional := nd.Bool()
+	r := newRH()
+	// providers: *vPA / *vPB / *vPC with custom or default names
+	var ps []any
+	var ts []int
+	unnamed := [nProviderTypes]bool{}
+	for i := 0; i < k; i++ {
+		t := nd.Choose(3)
+		a := vAttr{id: i}
+		if !unnamed[t] && nd.Bool() {
+			unnamed[t] = true
+		} else {
+			a.nm = vNames[i]
+		}
+		ps = append(ps, vMake(t, a))
+		ts = append(ts, t)
+	}
+	h, single, _ := vHolder(kind)
+	hm := r.register(h, "holder")
+	for _, p := range ps {
+		r.register(p, vProviderName(p))
+	}
+	// requested name: one of the provider names, the holder's own name, or an absent name
+	var req string
+	c := nd.Choose(k + 2)
+	switch {
+	case c < k:
+		req = vProviderName(ps[c])
+	case c == k:
+		req = "nobody"
+	default:
+		req = "holder"
+	}
+	for _, pr := range hm.GetComponentProperties() {
+		pr.TagVal = req
+		if optional {
+			pr.SetArg(component_definition.ArgRequired, "false")
+		}
+	}
+	_, err := r.f.doGetComponent("holder")
+	// specification
+	var want any
+	for i, p := range ps {
+		if vProviderName(p) == req {
+			assignable := kind == kAny || (kind == kPtr && vIsPA[ts[i]]) || (kind == kIface && vImplI1[ts[i]])
+			if assignable {
+				want = p
+			} else {
+				nd.Cover("named component has an incompatible type")
+			}
+		}
+	}
+	if want == nil {
+		if optional {
+			nd.Cover("optional point, no such component")
+			nd.Assert(err == nil, "C07: an optional by-name point that cannot be satisfied never fails start-up")
+			nd.Assert(single() == nil, "C07: an optional by-name point that cannot be satisfied leaves the field untouched")
+		} else {
+			nd.Assert(err != nil, "C07: a required by-name point without a matching assignable component is reported as an error")
+		}
+		return
+	}
+	nd.Cover("named component found")
+	nd.Assert(err == nil, "C07: start-up succeeds when the named component exists and is assignable")
+	nd.Assert(single() == want, "C07: the point receives exactly the component registered under the requested name")
+}
+
+// ---------------------------------------------------------------------------
+// C08: qualifier and primary narrowing, per field, independent of the other fields
+// ---------------------------------------------------------------------------
+
+type vMissing interface{ vmissing() }
+
+type vH8a struct {
+	nm string
+	A  vI1 `wire:""`
+	B  vI1 `wire:""`
+}
+type vH8b struct {
+	nm string
+	A  vMissing `wire:",required=false"`
+	B  vI1      `wire:""`
+}
+type vH8c struct {
+	nm string
+	A  []vI1 `wire:""`
+	B  vI1   `wire:""`
+}
+type vH8d struct {
+	nm string
+	A  vI1   `wire:""`
+	B  []vI1 `wire:",required=false"`
+	C  vI1   `wire:""`
+}
+
+func (h *vH8a) Naming() string { return h.nm }
+func (h *vH8b) Naming() string { return h.nm }
+func (h *vH8c) Naming() string { return h.nm }
+func (h *vH8d) Naming() string { return h.nm }
+
+type vFieldView struct {
+	name   string
+	slice  bool
+	single func() any
+	multi  func() []any
+	nocand bool // declared type has no implementer at all
+}
+
+func ifaceOrNil(v vI1) any {
+	if v == nil {
+		return nil
+	}
+	return v
+}
+func ifaceSlice(v []vI1) []any {
+	var o []any
+	for _, e := range v {
+		o = append(o, e)
+	}
+	return o
+}
+
+func VerifC08() {
+	k := nd.Param("K", 2)
+	r := newRH()
+	var h any
+	var fields []vFieldView
+	switch nd.Choose(nd.Param("SHAPES", 4)) {
+	case 0:
+		x := &vH8a{nm: "holder"}
+		h = x
+		fields = []vFieldView{{name: "A", single: func() any { return ifaceOrNil(x.A) }}, {name: "B", single: func() any { return ifaceOrNil(x.B) }}}
+	case 1:
+		x := &vH8b{nm: "holder"}
+		h = x
+		fields = []vFieldView{{name: "A", nocand: true, single: func() any {
+			if x.A == nil {
+				return nil
+			}
+			return x.A
+		}}, {name: "B", single: func() any { return ifaceOrNil(x.B) }}}
+	case 2:
+		x := &vH8c{nm: "holder"}
+		h = x
+		fields = []vFieldView{{name: "A", slice: true, multi: func() []any { return ifaceSlice(x.A) }}, {name: "B", single: func() any { return ifaceOrNil(x.B) }}}
+	default:
+		x := &vH8d{nm: "holder"}
+		h = x
+		fields = []vFieldView{{name: "A", single: func() any { return ifaceOrNil(x.A) }}, {name: "B", slice: true, multi: func() []any { return ifaceSlice(x.B) }}, {name: "C", single: func() any { return ifaceOrNil(x.C) }}}
+	}
+	// candidates: implementers of vI1 (*vPA, *vPB, *vPP) and *vPC (not an implementer)
+	ps, ts := vProviders(k, true)
+	hm := r.register(h, "holder")
+	for _, p := range ps {
+		r.register(p, vProviderName(p))
+	}
+	// per field: requested qualifier set (0..2 symbolic one-byte items) and required bit
+	type want struct {
+		hasQ     bool
+		qs       []string
+		optional bool
+	}
+	wants := make([]want, len(fields))
+	props := hm.GetComponentProperties()
+	nd.Assert(len(props) == len(fields), "C11: one property per tagged field")
+	for i := range fields {
+		var pr *component_definition.Property
+		for _, p := range props {
+			if p.StructField.Name == fields[i].name {
+				pr = p
+			}
+		}
+		w := want{}
+		if fields[i].nocand {
+			w.optional = true
+		} else {
+			nq := nd.Choose(nd.Param("NQ", 1) + 1)
+			if nq > 0 {
+				w.hasQ = true
+				for j := 0; j < nq; j++ {
+					w.qs = append(w.qs, nd.Bytes(1))
+				}
+				pr.SetArg(component_definition.ArgQualifier, w.qs...)
+			}
+			if !pr.IsRequired() {
+				w.optional = true
+			} else if nd.Bool() {
+				w.optional = true
+				pr.SetArg(component_definition.ArgRequired, "false")
+			}
+		}
+		wants[i] = w
+	}
+	_, err := r.f.doGetComponent("holder")
+	// specification, field by field
+	expectErr := false
+	type spec struct{ q []int }
+	specs := make([]spec, len(fields))
+	for i, fv := range fields {
+		if fv.nocand {
+			continue
+		}
+		for j := range ps {
+			if !vImplI1[ts[j]] {
+				continue
+			}
+			a, _ := vAttrOf(ps[j])
+			if wants[i].hasQ {
+				if !vHasQualifier[ts[j]] {
+					continue
+				}
+				in := false
+				for _, q := range wants[i].qs {
+					if q == a.q {
+						in = true
+					}
+				}
+				if !in {
+					continue
+				}
+			}
+			specs[i].q = append(specs[i].q, j)
+		}
+		if len(specs[i].q) == 0 && !wants[i].optional {
+			expectErr = true
+		}
+	}
+	if err != nil {
+		nd.Cover("start failed")
+		nd.Assert(expectErr, "C08: start-up fails only when some required point has no qualifying candidate")
+		return
+	}
+	nd.Cover("start ok")
+	nd.Assert(!expectErr, "C08: a required point without a qualifying candidate is reported as an error")
+	for i, fv := range fields {
+		q := specs[i].q
+		if fv.slice {
+			got := fv.multi()
+			nd.Assert(len(got) == len(q), "C08: a slice point holds exactly the qualifying candidates")
+			for _, g := range got {
+				in := false
+				for _, j := range q {
+					if g == ps[j] {
+						in = true
+					}
+				}
+				nd.Assert(in, "C08: every slice element has a requested qualifier")
+			}
+			continue
+		}
+		got := fv.single()
+		if len(q) == 0 {
+			nd.Assert(got == nil, "C08: an optional point without a qualifying candidate stays empty")
+			continue
+		}
+		in := false
+		for _, j := range q {
+			if got == ps[j] {
+				in = true
+			}
+		}
+		nd.Assert(in, "C08: only a component with a requested qualifier is injected")
+		nPrim, nUnnamed, prim, un := 0, 0, -1, -1
+		for _, j := range q {
+			a, _ := vAttrOf(ps[j])
+			if vIsPrimary[ts[j]] {
+				nPrim++
+				prim = j
+			} else if a.nm == "" {
+				nUnnamed++
+				un = j
+			}
+		}
+		if nPrim == 1 {
+			nd.Cover("unique primary")
+			nd.Assert(got == ps[prim], "C08: a unique Primary candidate wins")
+		} else if nPrim == 0 && nUnnamed == 1 {
+			nd.Cover("unique unnamed")
+			nd.Assert(got == ps[un], "C08: without a Primary, a unique candidate without a custom name wins")
+		} else if nPrim > 1 {
+			a, t := vAttrOf(got)
+			_ = a
+			nd.Assert(vIsPrimary[t], "C10: a tie is broken only inside the top-ranked candidates")
+		} else if nUnnamed > 1 {
+			a, _ := vAttrOf(got)
+			nd.Assert(a.nm == "", "C10: a tie is broken only inside the top-ranked candidates")
+		}
+	}
+}
